@@ -116,6 +116,10 @@ def can_win_by_rules(s: State, i: int) -> bool | None:
         pots = list(s.pots)
     except Exception:  # noqa: BLE001
         return None
+    inplay = [c for row in s.board_cards for c in row if c] + [c for h in s.hole_cards for c in h if c]
+    if len(inplay) != len(set(inplay)):
+        # the same card twice (dealt against a dealability warning): the rules rank hands of distinct cards
+        return None
     own = [c for c in s.hole_cards[i] if c]
     if len(own) != len(s.hole_cards[i]):
         return None
